@@ -1,6 +1,7 @@
 package c13
 
 import (
+	"bytes"
 	"fmt"
 	"sync"
 
@@ -41,6 +42,29 @@ func delegate(issuer, subj int) *x509.Certificate {
 		NotBefore: -86400, NotAfter: 3650 * 86400, KeyUsage: int(x509.KeyUsageDigitalSignature), EKU: []int{int(x509.ExtKeyUsageOcspSigning)}}.Template()
 	c := pki.MustIssue(t, parent, keys.Get(subj), keys.Get(issuer))
 	delegMemo[[2]int{issuer, subj}] = c
+	return c
+}
+
+var impostorMemo = map[[2]int]*x509.Certificate{}
+
+// impostor returns a certificate that carries the subject DN of CA `issuer` byte
+// for byte (and the OCSP-signing EKU) but holds, and is self-signed with, pool key
+// `attacker`: it names the issuer without being issued by it.
+func impostor(issuer, attacker int) *x509.Certificate {
+	real := ca(issuer)
+	mu.Lock()
+	defer mu.Unlock()
+	if c, ok := impostorMemo[[2]int{issuer, attacker}]; ok {
+		return c
+	}
+	t := pki.Spec{CN: fmt.Sprintf("C13 CA %d", issuer), Key: attacker, Serial: int64(7000 + attacker), CA: true, MaxPathLen: -1,
+		NotBefore: -365 * 86400, NotAfter: 3650 * 86400,
+		KeyUsage: int(x509.KeyUsageCertSign | x509.KeyUsageCRLSign | x509.KeyUsageDigitalSignature), EKU: []int{int(x509.ExtKeyUsageOcspSigning)}}.Template()
+	c := pki.MustIssue(t, nil, keys.Get(attacker), keys.Get(attacker))
+	if !bytes.Equal(c.RawSubject, real.RawSubject) {
+		panic("c13: impostor subject DN differs from the issuer's")
+	}
+	impostorMemo[[2]int{issuer, attacker}] = c
 	return c
 }
 
